@@ -38,7 +38,9 @@ def gen_feature(rng, kind, n):
         elif r < 0.08:
             vals = [rng.randint(1, 50) * 1e-300 for _ in range(n)]          # very small magnitudes
         elif r < 0.12:
-            vals = [2 ** 53 + rng.randint(0, 40) for _ in range(n)]         # ints a double cannot hold
+            # ints a double cannot hold exactly, but far enough apart to round to distinct doubles (adjacent integers
+            # above 2^53 share one double, hence one interval label: documented as out of scope in DESIGN.md)
+            vals = [2 ** 53 + 4 * rng.randint(0, 40) + 1 for _ in range(n)]
             nan_rate = 0
         elif r < 0.18:
             vals = [float(np.float32(v)) for v in vals]; extra = "float32"
@@ -204,7 +206,7 @@ def make_carver(ds, cfg, copy=True, n_jobs=1):
         return BinaryCarver(sort_by=cfg["sort_by"], min_freq_mod=cfg["min_freq_mod"], **kw)
     if ds["target"] == "continuous":
         return ContinuousCarver(min_freq_mod=cfg["min_freq_mod"], **kw)
-    return MulticlassCarver(sort_by=cfg["sort_by"], **kw)
+    return MulticlassCarver(sort_by=cfg["sort_by"], min_freq_mod=cfg["min_freq_mod"], **kw)
 
 
 def fit_carver(ds, cfg, **kw):
